@@ -1,4 +1,28 @@
 # Per-property configuration of bin/check.
+
+SERVER_RULE = (
+    "server engine: a real dht.Server on a fake PacketConn driven through generated event histories (scenarios table / "
+    "methods / tokens / peers / queries / blocklist / misc / budget / bep44); after EVERY event the datagrams written, "
+    "callbacks, peer-store calls, query completions, the routing-table snapshot (hook) and API counters are compared with "
+    "the extracted model's step on the same event (relational where Go leaves a choice: eviction victim, node-list "
+    "members/order, values order, transaction id); a case line is distinct by its full event text incl. its history "
+    "position; every line exercises one model transition")
+
+SERVER_TRUSTED = [
+    "Go runtime, net/netip, x/time/rate (exact-budget limiter: rate 0), anacrolix/torrent/bencode (packets are encoded and "
+    "decoded by the library in the server engine; the byte-level codec is C15's concern)",
+    "sha1 (Gallina implementation, compared with crypto/sha1 by the security engine); ed25519 verdicts supplied per case by "
+    "the harness (crypto/ed25519 on a reference-built buffer)",
+    "the server model is of the repaired behaviour for D1/D4/D5/D6/D7 (fix: commits in /repo); events are compared at lock "
+    "granularity, goroutine effects collected per event",
+]
+
+
+def server(extra_rule="", engines=("server",), trusted=(), assumptions=()):
+    return dict(engines=list(engines), rule=SERVER_RULE + (" ; " + extra_rule if extra_rule else ""),
+                trusted=SERVER_TRUSTED + list(trusted), assumptions=list(assumptions))
+
+
 PROPS = {
     "C18": dict(
         engines=["metric"],
@@ -10,4 +34,20 @@ PROPS = {
                  "math/big BitLen, net/netip Addr.Compare, benbjohnson/immutable sorted map: modelled, compared by the harness"],
         assumptions=["maphash of distinct address strings does not collide"],
     ),
+    "C01": server("plus: every server case runs in a child process; a dead child, a stuck serve loop, a probe ping without "
+                  "reply or an API call that does not return is a direct violation"),
+    "C05": server("oracle: bucket index = shared prefix, capacity 8, no duplicate (id,address), no own/zero id, "
+                  "NumNodes/Stats/Nodes agree with the snapshot"),
+    "C06": server("oracle: every appearing / disappearing table entry classified against the admission and eviction rules"),
+    "C07": server("oracle: a Query returns a reply only for a datagram from its destination address echoing its t; one "
+                  "completion per datagram"),
+    "C08": server("oracle: destination, echoed t, at most one datagram, 203/204, response form, silence on non-queries"),
+    "C09": server("oracle: node lists <= 8 distinct good responded contacts of the right family, nearest buckets first "
+                  "relative to the query's target"),
+    "C10": server("oracle: announce_peer/put with a token never issued to that IP or older than 15 min has no effect; a token "
+                  "younger than 10 min is honoured"),
+    "C11": server("oracle: get_peers values = announced endpoints (uint16 port, implied_port), BEP 32 family filtering, token present"),
+    "C19": server("oracle: no datagram to a blocked address, no effect from a blocked source, passive node silent and its "
+                  "queries carry ro=1"),
+    "C20": server("oracle: with an exact-budget limiter (rate 0, burst b) the number of rated datagrams never exceeds b"),
 }
